@@ -31,7 +31,8 @@ def switch_arms(body, bb):
     tgt2vars = {}
     for v, tg in edges.items():
         tgt2vars.setdefault(tg, []).append(v)
-    reach = {tg: body.reachable(tg) for tg in tgt2vars}
+    # loop-aware: an arm ends where control comes back to the switch itself
+    reach = {tg: body.reachable(tg, avoid=[bb]) for tg in tgt2vars}
     arms = {}
     for tg, vs in tgt2vars.items():
         others = set()
